@@ -146,10 +146,12 @@ def finding_key(req, obs, detail):
 
 SPEC = {
     "id": "C04",
-    "gens": ["SlotTables", "FixpointTables", "RankTable", "TypingTables", "HlslGenTables", "HlslIntrinsicTables"] + LEG_GENS,
+    "gens": ["SlotTables", "FixpointTables", "RankTable", "TypingTables", "HlslGenTables", "HlslIntrinsicTables",
+             "MetaTables", "CompileTables"] + LEG_GENS,
     "lean_modules": ["RsslVerif.Thm.C04"] + LEG_MODULES,
     "theorems": [T + n for n in [
         "slots_stable", "run_explicit", "step_explicit",
+        "dx_params", "slots_stable_reread", "annotations_stable", "reread_names_group",
         "reread_table_agrees", "cast_drop_agrees", "reread_only_int32",
         "reelab_no_new_casts", "reelab_stmt_no_new_casts", "export_is_source", "unelab_is_export", "renamed_exists",
         "reelab_idempotent", "reelab_fails_out_argument",
